@@ -280,7 +280,41 @@ fn write_summary(
 fn cmd_replay(args: &[String]) -> i32 {
     let path = &args[0];
     let (case, rep) = load_case(path);
-    let o = run_one(&case, "replay");
+    let mut o = run_one(&case, "replay");
+    // Pinned THR regressions: an explicit schedule is a positional list of choices and goes stale
+    // when hook sites are added. `--search N` therefore also runs the case under N freshly seeded
+    // (fair) schedules; a "no-progress" verdict that only the stale explicit schedule produces is
+    // not trusted (an unfair schedule proves nothing), any other verdict stands.
+    let search: u64 = arg(args, "--search").and_then(|s| s.parse().ok()).unwrap_or(0);
+    if search > 0 && case.engine == case::Engine::Thr && o.harness_error.is_none() {
+        let explicit_no_progress = o.violation.as_ref().is_some_and(|v| v.clause == "no-progress") && case.schedule.is_some();
+        if o.violation.is_none() || explicit_no_progress {
+            let mut found = None;
+            for k in 0..search {
+                let mut c = case.clone();
+                c.schedule = None;
+                c.cfg.sched_seed = rng::mix(case.cfg.sched_seed ^ k.wrapping_mul(0x9E37_79B9));
+                c.cfg.stickiness = [0u8, 30, 50, 70, 90][(k % 5) as usize];
+                let o2 = run_one(&c, "replay");
+                if o2.harness_error.is_some() {
+                    continue;
+                }
+                if o2.violation.is_some() {
+                    found = Some(o2);
+                    break;
+                }
+            }
+            match found {
+                Some(o2) => o = o2,
+                None => {
+                    if explicit_no_progress {
+                        println!("NOTE: the recorded schedule is stale (no-progress under it, but none of {search} seeded schedules fails)");
+                        o.violation = None;
+                    }
+                }
+            }
+        }
+    }
     fsutil::remove_tree(&fsutil::scratch_root());
     if let Some(h) = o.harness_error {
         println!("HARNESS-ERROR {h}");
